@@ -7,3 +7,5 @@ import maps_common
 maps_common.maps_build()
 import field_common
 field_common.field_build()
+import c09, c16
+c09.ps_build(); c16.imp_build()
